@@ -95,6 +95,8 @@ class Deep:
     def __init__(self, F, root, max_paths=3000, max_depth=6, inline=True, opaque=None, inline_only=None, stop_at=(), prune=None, unroll=1, watch_named=False,
                  pure_cache=False):
         self.stop_at = frozenset(stop_at)
+        self.stop_read = {}
+        self.stop_term = frozenset()
         # pure_cache: a second call of a side-effect-free std accessor (`slice.last()`, `v.len()`, `path.to_str()` ..) with the
         # very same argument terms yields the same term (and no second effect) — keeps a condition that is evaluated several
         # times (a style closure called per fragment) from re-branching every time
@@ -335,7 +337,10 @@ class Deep:
                     k(st, ("pruned", self.fresh()))
                 return
             if fr.fid == 0 and bb in self.stop_at and seen:
-                self._finish(st, ("reached", bb))
+                # (with `stop_read`: the values, at this point, of the operands the caller asked for — e.g. the arguments of the call the
+                # block ends in — are handed out with the result)
+                want = self.stop_read.get(bb) if getattr(self, "stop_read", None) else None
+                self._finish(st, ("reached", bb) if want is None else ("reached", bb, tuple(self.operand(fr, st, o) for o in want)))
                 return
             if bb in seen and fr.fid == 0 and self.unroll >= 2 and ("again", bb) not in seen:
                 seen = seen | {("again", bb)}
@@ -365,6 +370,18 @@ class Deep:
                 self.write(st, place, val)
             t = blk["term"]
             tk = t["k"]
+            if fr.fid == 0 and getattr(self, "stop_term", None) and bb in self.stop_term:
+                # cut at this block's terminator (its statements done): hand out the operands the caller asked for (`stop_read`)
+                want = self.stop_read.get(bb, ())
+                vals = []
+                for o in want:
+                    v = self.operand(fr, st, o)
+                    n_ = 0
+                    while isinstance(v, tuple) and len(v) == 2 and v[0] in ("ref", "refto") and isinstance(v[1], tuple) and v[1] and v[1][0] == "L" and n_ < 4:
+                        v, n_ = self.read(st, v[1]), n_ + 1     # `&local`: what the local holds at this point
+                    vals.append(v)
+                self._finish(st, ("reached", bb, tuple(vals)))
+                return
             if tk == "return":
                 k(st, self.read(st, ("L", fr.fid, 0)))
                 return
